@@ -207,3 +207,22 @@ Definition sentences (u : unit) : list (list byte) :=
   let Wr := words true in
   flat_map (fun k => sentences_of false W (N.of_nat k)) (seq 0 (length all_defs)) ++
   flat_map (fun k => sentences_of true Wr (N.of_nat k)) (seq 0 (length all_defs)).
+
+(* ---- per-function runs (the per-function correspondence): every parser function by its source name, the model's
+   answer for it on a buffer, and standalone sentences of it (no surrounding response) that between them take every
+   alternative and repetition shape written in it *)
+Definition fn_names (u : unit) : list string := map fst gen_defs.
+
+Definition run_fn (k : N) (i : list byte) : res :=
+  match env k with
+  | Some g => run native_call env (S (length i)) FUEL g 0%nat i
+  | None => RFail
+  end.
+
+Definition fn_sentences (u : unit) : list (N * list (list byte)) :=
+  let W := words false in
+  let Wr := words true in
+  flat_map (fun k => match env (N.of_nat k) with
+                     | Some g => [(N.of_nat k, variants false W g ++ variants true Wr g)]
+                     | None => []
+                     end) (seq 0 (length all_defs)).
